@@ -27,6 +27,9 @@ complementary one runs at all) - contained, but not removed.
 from __future__ import annotations
 
 import ast
+import decimal
+import fractions
+import numbers
 import itertools
 import math
 import types
@@ -538,7 +541,55 @@ class RaisingProperty:
         raise RuntimeError("property getter run by the tracer")
 
 
-NATIVE = (LtOnly, NeRaises, EqRaisesInNe, ContainsOnly, BoolAndLen, NotAString, RaisingProperty)
+class DivZeroNumber(numbers.Real):
+    """a user-defined number: comparisons work, arithmetic raises ZeroDivisionError"""
+
+    def _bad(self, *a):
+        raise ZeroDivisionError("user-defined arithmetic")
+
+    __abs__ = __add__ = __ceil__ = __floor__ = __floordiv__ = __mod__ = __mul__ = __neg__ = __pos__ = __pow__ = __radd__ = __rfloordiv__ = __rmod__ = __rmul__ = __round__ = __rpow__ = __rtruediv__ = __truediv__ = __trunc__ = __sub__ = __rsub__ = _bad
+
+    def __float__(self):
+        return 1.0
+
+    def __eq__(self, other):
+        return False
+
+    def __lt__(self, other):
+        return False
+
+    def __le__(self, other):
+        return False
+
+    __hash__ = None
+
+
+class GetattrKeyError:
+    """`__getattr__` answers unknown names with KeyError (a record that looks fields up in a dict): hasattr() only
+    swallows AttributeError."""
+
+    def __init__(self):
+        self._fields = {"a": 1}
+
+    def __getattr__(self, name):
+        return self._fields[name]
+
+    def total(self):
+        return 4
+
+
+class RaisingDictAttr:
+    """reading `__dict__` runs code of the module under test that raises"""
+
+    @property
+    def __dict__(self):
+        raise RuntimeError("__dict__ computed by the module under test")
+
+    def method(self):
+        return 1
+
+
+NATIVE = (LtOnly, NeRaises, EqRaisesInNe, ContainsOnly, BoolAndLen, NotAString, RaisingProperty, GetattrKeyError, RaisingDictAttr, DivZeroNumber, decimal.Decimal, fractions.Fraction)
 
 
 def _tracer_interp(repo, sinks=("self._update_metrics",)):
@@ -572,6 +623,9 @@ def _observe(ctx, repo) -> None:
         ("EQ", lambda: (b"\x89PNG", b"\xff\xfe"), "bytes that are not UTF-8"),
         ("LT", lambda: (b"\xff", b"\xfe\xff"), "bytes that are not UTF-8 (<)"),
         ("IN", lambda: (b"\xff", (b"\xfe", b"\x80")), "bytes in a tuple of bytes"),
+        ("EQ", lambda: (decimal.Decimal("9E+999999"), decimal.Decimal("-9E+999999")), "decimals whose difference leaves the exponent range (decimal.Overflow is an ArithmeticError)"),
+        ("IN", lambda: (decimal.Decimal("9E+999999"), [decimal.Decimal("-9E+999999")]), "such a decimal searched in a list"),
+        ("EQ", lambda: (fractions.Fraction(1, 3), DivZeroNumber()), "a number whose subtraction raises ZeroDivisionError"),
     ]
     for kind, mk, what in cases:
         a, b = mk()
@@ -621,17 +675,30 @@ def _observe(ctx, repo) -> None:
         except Exception as exc:  # noqa: BLE001
             ctx.fail("C01.observe", ebp, f"{tag}: executed_bool_predicate lets {type(exc).__name__}: {exc} escape into the module under test", stmt=tag)
     # attribute access tracking
-    it = peval.Interp(resolver=peval.repo_resolver(repo), sinks={"self._thread_local_state.trace.add_attribute_instruction"}, native_types=NATIVE,
-                      externs={"self.attribute_lookup": lambda o, n: -1}, max_steps=100000,
-                      consts={"BuiltinMethodType": types.BuiltinMethodType, "BuiltinFunctionType": types.BuiltinFunctionType, "MethodType": types.MethodType, "immutable_types": (int, float, str, bool, tuple, frozenset, bytes, type(None))})
-    tag = "[attribute] a property whose getter raises, traced after STORE_ATTR"
-    try:
-        it.run_function(taa, [peval.Obj("tracer"), "m", 1, 2, 95, 3, 4, "attr", RaisingProperty()], {}, tmod)
-        ctx.ok("C01.observe", taa, f"{tag}: contained")
-    except peval.Undecided as exc:
-        ctx.undecide("C01.observe", taa, f"{tag}: {exc}")
-    except (peval.Raises, Exception) as exc:  # noqa: BLE001
-        ctx.fail("C01.observe", taa, f"{tag}: track_attribute_access lets {type(exc).__name__}: {exc} escape into the module under test (the traced instruction does not read the attribute)", stmt=tag)
+    lookup = repo.func(TR, "ExecutionTracer.attribute_lookup")
+    ctx.analysed(lookup)
+    import inspect as _inspect
+
+    for mkobj, attr, tag in ((RaisingProperty, "attr", "[attribute] a property whose getter raises, traced after STORE_ATTR"),
+                             (GetattrKeyError, "total", "[attribute] an object whose __getattr__ raises KeyError for unknown names (method access)"),
+                             (RaisingDictAttr, "method", "[attribute] an object whose __dict__ is computed and raises")):
+        holder = {}
+
+        def real_lookup(o, n, _h=holder):
+            # the tracer's own lookup, interpreted from source on the object of the module under test
+            return _h["it"].run_function(lookup, [o, n], {}, tmod)
+
+        it = peval.Interp(resolver=peval.repo_resolver(repo), sinks={"self._thread_local_state.trace.add_attribute_instruction"}, native_types=(*NATIVE, type, types.MappingProxyType),
+                          externs={"self.attribute_lookup": real_lookup, "inspect.isdatadescriptor": _inspect.isdatadescriptor}, max_steps=100000,
+                          consts={"BuiltinMethodType": types.BuiltinMethodType, "BuiltinFunctionType": types.BuiltinFunctionType, "MethodType": types.MethodType, "immutable_types": (int, float, str, bool, tuple, frozenset, bytes, type(None))})
+        holder["it"] = it
+        try:
+            it.run_function(taa, [peval.Obj("tracer"), "m", 1, 2, 95, 3, 4, attr, mkobj()], {}, tmod)
+            ctx.ok("C01.observe", taa, f"{tag}: contained")
+        except peval.Undecided as exc:
+            ctx.undecide("C01.observe", taa, f"{tag}: {exc}")
+        except (peval.Raises, Exception) as exc:  # noqa: BLE001
+            ctx.fail("C01.observe", taa, f"{tag}: track_attribute_access lets {type(exc).__name__}: {exc} escape into the module under test (the traced instruction does not run this code, or not again)", stmt=tag)
     # the tracer's own lookups run with tracing switched off
     guarded = any(isinstance(w, ast.With) and any("temporarily_disable" in norm(i.context_expr) for i in w.items) and any(isinstance(c, ast.Call) and norm(c.func) == "getattr" for c in ast.walk(w)) for w in own_nodes(taa))
     has_getattr = any(isinstance(c, ast.Call) and norm(c.func) == "getattr" for c in own_nodes(taa))
